@@ -56,7 +56,9 @@ def gen_case(rng):
     p['prec'] = rng.choice([None, None, 'c', 'r'])
     p['max_full'] = rng.choice([0, 500])
     p['ls'] = rng.choice([1, 1, 2])
-    p['x0'] = rng.choice(['none', 'none', 'rank1', 'rank3'])
+    p['x0'] = rng.choice(['none', 'none', 'rank1', 'rank3', 'near', 'near'])
+    # 'near': the exact solution plus a relative perturbation between 10*eps and sqrt(eps) (a warm start from a coarser solve)
+    p['near'] = rng.uniform(0.0, 1.0)
     p['band'] = -1
     if cls == 'kronsum':
         p['terms'] = rng.randint(1, 4)
@@ -65,6 +67,16 @@ def gen_case(rng):
     if cls == 'laplace':
         p['shift'] = rng.choice([0.05, 0.2, 1.0])
         p['band'] = rng.choice([-1, -1, 1])
+        if rng.random() < 0.35:
+            # the configuration in which one GMRES cycle is not enough: large modes, tight eps, iterative local solve,
+            # no preconditioner (restarts, BiCGSTAB resets)
+            d2 = rng.choice([2, 3])
+            p['N'] = [rng.randint(10, 12) for _ in range(d2)]
+            p['Rb'] = [1] + [rng.randint(1, 4) for _ in range(d2 - 1)] + [1]
+            p['eps'] = 10.0 ** (-rng.randint(8, 10))
+            p['prec'] = None
+            p['max_full'] = rng.choice([0, 0, 500])
+            p['shift'] = rng.choice([0.05, 0.2])
     r = rng.random()
     if r < 0.2:
         pts = sorted(set(rng.randint(0, 60) for _ in range(rng.randint(1, 4))))
@@ -109,7 +121,16 @@ def build(p):
         A = torchtt.eye(N) + E * (0.3 / nE)
     b = TT(gen.rand_cores(N, p['Rb'], 'f64', g))
     x0 = None
-    if p['x0'] != 'none':
+    if p['x0'] == 'near':
+        n = int(np.prod(N))
+        Am = gen.dense(A).reshape(n, n)
+        xt = torch.linalg.solve(Am, gen.dense(b).reshape(n)).reshape(N)
+        x0 = TT(xt, eps=1e-13) if d > 1 else TT(xt)
+        lo, hi = math.log10(10 * p['eps']), math.log10(math.sqrt(p['eps']))
+        delta = 10 ** (lo + (hi - lo) * p.get('near', 0.5))
+        pert = TT(gen.rand_cores(N, [1] * (d + 1), 'f64', g))
+        x0 = x0 + pert * (delta * gen.fro(xt) / max(gen.fro(gen.dense(pert)), 1e-300))
+    elif p['x0'] != 'none':
         r = 1 if p['x0'] == 'rank1' else 3
         x0 = TT(gen.rand_cores(N, [1] + [r] * (d - 1) + [1], 'f64', g))
     return A, b, x0
